@@ -200,8 +200,9 @@ coap_ws_mask_data(coap_session_t *session, uint8_t *data, size_t data_len) {
 
 ssize_t
 coap_ws_write(coap_session_t *session, const uint8_t *data, size_t datalen) {
-  uint8_t ws_header[COAP_MAX_FS];
-  ssize_t hdr_len = 2;
+  coap_ws_state_t *ws;
+  size_t hdr_left;
+  size_t i;
   ssize_t ret;
   uint8_t *wdata;
 
@@ -214,68 +215,102 @@ coap_ws_write(coap_session_t *session, const uint8_t *data, size_t datalen) {
     }
     memset(session->ws, 0, sizeof(coap_ws_state_t));
   }
+  ws = session->ws;
 
-  if (!session->ws->up) {
+  if (!ws->up) {
     coap_log_debug("WS: Layer not up\n");
     return 0;
   }
-  if (session->ws->sent_close)
+  if (ws->sent_close)
     return 0;
 
-  ws_header[0] = WS_B0_FIN_BIT | WS_OP_BINARY;
-  if (datalen <= 125) {
-    ws_header[1] = datalen & WS_B1_LEN_MASK;
-  } else if (datalen <= 0xffff) {
-    ws_header[1] = 126;
-    ws_header[2] = (datalen >>  8) & 0xff;
-    ws_header[3] = datalen & 0xff;
-    hdr_len += 2;
-  } else {
-    ws_header[1] = 127;
-    ws_header[2] = ((uint64_t)datalen >> 56) & 0xff;
-    ws_header[3] = ((uint64_t)datalen >> 48) & 0xff;
-    ws_header[4] = ((uint64_t)datalen >> 40) & 0xff;
-    ws_header[5] = ((uint64_t)datalen >> 32) & 0xff;
-    ws_header[6] = (datalen >> 24) & 0xff;
-    ws_header[7] = (datalen >> 16) & 0xff;
-    ws_header[8] = (datalen >>  8) & 0xff;
-    ws_header[9] = datalen & 0xff;
-    hdr_len += 8;
+  if (ws->tx_hdr_ofs == 0 ||
+      (ws->tx_hdr_ofs == ws->tx_hdr_len && ws->tx_data_left == 0)) {
+    /* Nothing of a frame is part way to the lower layer - start a new one */
+    uint8_t *ws_header = ws->tx_header;
+    size_t hdr_len = 2;
+
+    ws_header[0] = WS_B0_FIN_BIT | WS_OP_BINARY;
+    if (datalen <= 125) {
+      ws_header[1] = datalen & WS_B1_LEN_MASK;
+    } else if (datalen <= 0xffff) {
+      ws_header[1] = 126;
+      ws_header[2] = (datalen >>  8) & 0xff;
+      ws_header[3] = datalen & 0xff;
+      hdr_len += 2;
+    } else {
+      ws_header[1] = 127;
+      ws_header[2] = ((uint64_t)datalen >> 56) & 0xff;
+      ws_header[3] = ((uint64_t)datalen >> 48) & 0xff;
+      ws_header[4] = ((uint64_t)datalen >> 40) & 0xff;
+      ws_header[5] = ((uint64_t)datalen >> 32) & 0xff;
+      ws_header[6] = (datalen >> 24) & 0xff;
+      ws_header[7] = (datalen >> 16) & 0xff;
+      ws_header[8] = (datalen >>  8) & 0xff;
+      ws_header[9] = datalen & 0xff;
+      hdr_len += 8;
+    }
+    if (ws->state == COAP_SESSION_TYPE_CLIENT) {
+      /* Need to set the Mask bit, and set the masking key */
+      ws_header[1] |= WS_B1_MASK_BIT;
+      /* TODO Masking Key and mask provided data */
+      coap_prng_lkd(&ws_header[hdr_len], 4);
+      memcpy(ws->mask_key, &ws_header[hdr_len], 4);
+      hdr_len += 4;
+    }
+    coap_ws_log_header(session, ws_header);
+    ws->tx_hdr_len = (uint8_t)hdr_len;
+    ws->tx_hdr_ofs = 0;
+    ws->tx_data_ofs = 0;
+    ws->tx_data_left = datalen;
+  } else if (datalen > ws->tx_data_left) {
+    /*
+     * The lower layer took only a part of the current frame: the caller is
+     * handing over the rest of the data, which continues that frame.
+     */
+    datalen = ws->tx_data_left;
   }
-  if (session->ws->state == COAP_SESSION_TYPE_CLIENT) {
-    /* Need to set the Mask bit, and set the masking key */
-    ws_header[1] |= WS_B1_MASK_BIT;
-    /* TODO Masking Key and mask provided data */
-    coap_prng_lkd(&ws_header[hdr_len], 4);
-    memcpy(session->ws->mask_key, &ws_header[hdr_len], 4);
-    hdr_len += 4;
-  }
-  coap_ws_log_header(session, ws_header);
-  wdata = coap_malloc_type(COAP_STRING, datalen + hdr_len);
+  hdr_left = ws->tx_hdr_len - ws->tx_hdr_ofs;
+  wdata = coap_malloc_type(COAP_STRING, datalen + hdr_left);
   if (!wdata) {
     errno = ENOMEM;
     return -1;
   }
-  memcpy(wdata, ws_header, hdr_len);
-  memcpy(&wdata[hdr_len], data, datalen);
-  if (session->ws->state == COAP_SESSION_TYPE_CLIENT) {
-    /* Need to mask the data */
-    coap_ws_mask_data(session, &wdata[hdr_len], datalen);
+  memcpy(wdata, &ws->tx_header[ws->tx_hdr_ofs], hdr_left);
+  memcpy(&wdata[hdr_left], data, datalen);
+  if (ws->state == COAP_SESSION_TYPE_CLIENT) {
+    /* Need to mask the data (the key is at the end of the frame header) */
+    const uint8_t *mask_key = &ws->tx_header[ws->tx_hdr_len - 4];
+
+    for (i = 0; i < datalen; i++) {
+      wdata[hdr_left + i] ^= mask_key[(ws->tx_data_ofs + i) % 4];
+    }
   }
-  ret = session->sock.lfunc[COAP_LAYER_WS].l_write(session, wdata, datalen + hdr_len);
+  ret = session->sock.lfunc[COAP_LAYER_WS].l_write(session, wdata, datalen + hdr_left);
   coap_free_type(COAP_STRING, wdata);
-  if (ret < hdr_len) {
+  if (ret <= 0) {
     return ret;
   }
-  coap_log_debug("*  %s: ws h:  sent %4zd bytes\n",
-                 coap_session_str(session), hdr_len);
-  if (ret == (ssize_t)(datalen + hdr_len))
+  if ((size_t)ret < hdr_left) {
+    /* Not even the frame header has gone, so none of the data */
+    ws->tx_hdr_ofs += (uint8_t)ret;
+    return 0;
+  }
+  if (hdr_left)
+    coap_log_debug("*  %s: ws h:  sent %4zu bytes\n",
+                   coap_session_str(session), hdr_left);
+  ws->tx_hdr_ofs = ws->tx_hdr_len;
+  ret -= hdr_left;
+  ws->tx_data_ofs += ret;
+  ws->tx_data_left -= ret;
+  if (ret == (ssize_t)datalen)
     coap_log_debug("*  %s: ws:    sent %4zd bytes\n",
-                   coap_session_str(session), ret - hdr_len);
+                   coap_session_str(session), ret);
   else
-    coap_log_debug("*  %s: ws:    sent %4zd of %4zd bytes\n",
-                   coap_session_str(session), ret, datalen - hdr_len);
-  return datalen;
+    coap_log_debug("*  %s: ws:    sent %4zd of %4zu bytes\n",
+                   coap_session_str(session), ret, datalen);
+  /* The caller hands over the data not taken when the socket can be written */
+  return ret;
 }
 
 static char *
